@@ -580,6 +580,10 @@ fn check_prefixes(rep: &mut Report, buf: &[u8]) {
     rep.cur_case = format!("pfx {}", if buf.is_empty() { "-".into() } else { hex(buf) });
     let mut decided: Option<(usize, LibDec)> = None;
     for k in 0..=buf.len() {
+        if k % 16 == 0 && past_deadline() {
+            rep.count("cases_cut_short_by_time_budget");
+            return;
+        }
         let Ok(lib) = lib_decode(&buf[..k]) else {
             rep.evaluations += 1;
             let e = lib_decode(&buf[..k]).unwrap_err();
@@ -631,6 +635,10 @@ fn check_substitutions(rep: &mut Report, frame: &[u8], positions: &[usize], all_
     };
     let mut buf = frame.to_vec();
     for &pos in positions {
+        if past_deadline() {
+            rep.count("cases_cut_short_by_time_budget");
+            return;
+        }
         let old = frame[pos];
         let values: Vec<u8> = if all_values {
             (0..=255u8).filter(|v| *v != old).collect()
